@@ -7,6 +7,8 @@ NOTIFY = lambda a: lop("notify", a=a, x=0, objs=[])
 POLL = lambda a: lop("poll", a=a, x=0, objs=[])
 FREE = lambda a: lop("free", a=a, x=0, objs=[])
 WAIT = lambda a, dl=NONE: lop("wait", a=a, dl=dl, x=0, objs=[])
+SWC = lambda a, dl=NONE: lop("swc", a=a, dl=dl, x=0, objs=[])      # nsync_sem_wait_with_cancel_ (own waiter, dl, note a; 0 = no note)
+SEMV = lambda t: lop("semv", a=t, x=0, objs=[])                   # nsync_mu_semaphore_v on thread t's waiter semaphore
 WAITN = lambda objs, dl=NONE: lop("waitn", a=int("".join(str(o) for o in objs)), dl=dl, x=0, objs=list(objs))
 
 
@@ -30,6 +32,8 @@ CONF = {
     "n_free_mid": (["C09", "C08"], "q", dict(tree=CHAIN3, NN=3, progs=[[NOTIFY(1)], [FREE(2)], [POLL(3)]])),
     "n_adopt": (["C09", "C08"], "q", dict(tree=CHAIN3, NN=3, progs=[[FREE(2), NOTIFY(1)], [POLL(3), POLL(3)]])),
     "n_2notify_free": (["C09"], "q", dict(tree=CHAIN2, NN=2, progs=[[NOTIFY(2)], [NOTIFY(2)], [POLL(1), FREE(1)]])),
+    "n_par_free": (["C09"], "q", dict(tree=CHAIN2, NN=2, progs=[[NOTIFY(1), FREE(1)], [NOTIFY(2)]])),
+    "n_par_free3": (["C09"], "q", dict(tree=CHAIN3, NN=3, progs=[[NOTIFY(2), FREE(2)], [NOTIFY(3)], [POLL(1)]])),
     "n_new_free": (["C09"], "q", dict(tree=T((1, 0, NONE)), NN=2, progs=[[NEW(2, 1), FREE(2)], [NOTIFY(1)], [POLL(1)]])),
     "n_wait_free": (["C09", "C13"], "t", dict(tree=CHAIN2, NN=2, MaxNow=1, progs=[[WAIT(2, 1), FREE(2)], [NOTIFY(1)]])),
     "n_tree4": (["C08", "C09"], "t", dict(tree=T((1, 0, NONE), (2, 1, NONE), (3, 2, NONE), (4, 1, NONE)), NN=4, progs=[[NOTIFY(1)], [NOTIFY(3), FREE(3)], [WAIT(4), POLL(2)]])),
@@ -41,6 +45,14 @@ CONF = {
                                           progs=[[WAITN([1, 2, 3, 4, 5], 1)], [NOTIFY(4)]])),
     "w_ready": (["C11"], "q", dict(tree=T((1, 0, NONE), (2, 0, NONE), (3, 0, -1)), NN=3, MaxNow=0, progs=[[NOTIFY(2), WAITN([1, 2, 3]), WAITN([1, 3]), WAITN([1], -1)]])),
     "w_2callers": (["C11"], "t", dict(tree=T((1, 0, NONE), (2, 0, NONE)), NN=2, MaxNow=1, progs=[[WAITN([1, 2], 1)], [WAITN([2, 1])], [NOTIFY(1), NOTIFY(2)]])),
+    # nsync_sem_wait_with_cancel_ (sem_wait.c): the sleep of a cv / mu waiter that has a cancel note
+    "s_exp": (["C13", "C05", "C08"], "q", dict(tree=T((1, 0, 1)), NN=1, MaxNow=1, progs=[[SWC(1)], [NOTIFY(1)]])),
+    "s_2w": (["C13", "C05", "C08"], "q", dict(tree=T((1, 0, 1)), NN=1, MaxNow=1, progs=[[SWC(1)], [SWC(1), POLL(1)]])),
+    "s_v": (["C13", "C05"], "q", dict(tree=T((1, 0, NONE)), NN=1, MaxNow=1, progs=[[SWC(1, 1)], [SEMV(1)], [NOTIFY(1)]])),
+    "s_nonote": (["C05"], "q", dict(tree=T((1, 0, NONE)), NN=1, MaxNow=1, progs=[[SWC(0, 1), SWC(0, 1)], [SEMV(1)]])),
+    "s_child": (["C13", "C05", "C08"], "q", dict(tree=CHAIN2, NN=2, MaxNow=0, progs=[[SWC(2), SWC(2)], [NOTIFY(1)]])),
+    "s_nearer": (["C13", "C05"], "q", dict(tree=T((1, 0, 2)), NN=1, MaxNow=2, progs=[[SWC(1, 1), POLL(1)], [NOTIFY(1)]])),
+    "s_3w": (["C13", "C05"], "t", dict(tree=T((1, 0, 1)), NN=1, MaxNow=1, progs=[[SWC(1)], [SWC(1)], [SWC(1, 1)], [NOTIFY(1)]])),
     # C19: allocation failure at every constructor call of tree-building scenarios
     "a_seq": (["C19"], "q", dict(tree=T((1, 0, NONE)), NN=3, progs=[[NEW(2, 1, NONE, 1), NEW(2, 1), NEW(3, 2, 5, 1), NEW(3, 2, 5), NOTIFY(1), POLL(3)]])),
     "a_root": (["C19"], "q", dict(tree=T(), NN=2, progs=[[NEW(1, 0, NONE, 1), NEW(1, 0, 3), NEW(2, 1, 7, 1), NEW(2, 1, 7), POLL(2)]], MaxNow=0)),
@@ -63,7 +75,8 @@ def note_check(prop, tier, replay, wanted_inv, wanted_or, rule_extra="", extra=N
     run = Run(prop, tier, "fault_enumeration" if prop == "C19" else "model_checking")
     exe = build("h_l2")
     if replay:
-        res = mulib.run_harness_env(exe, ["replay", replay, REPLAYS], dict(os.environ, VERIF_PROP=prop))
+        rexe, renv = replay_target(replay, "h_l2")
+        res = mulib.run_harness_env(rexe, ["replay", replay, REPLAYS], dict(os.environ, VERIF_PROP=prop, **renv))
         for v in res["viols"]:
             run.violation("%s|%s|replay" % (v[0], v[1]), replay, v[5])
         if not res["viols"] and res["stats"].get("matched") == 1 and "_TLC" not in replay and any(x in replay for x in wanted_inv):
